@@ -585,7 +585,7 @@ def random_estimator_input(rng):
     scale = Fraction(1)
     for j in range(n_p):
         # recorded probabilities: products of a few dyadic single-qubit factors, smaller at lower rates or not
-        scale *= Fraction(int(rng.integers(1, 8)), 4)
+        scale *= Fraction(int(rng.integers(1, 12)), 8)
         chains.append([scale * Fraction(int(rng.integers(1, 64)), 2 ** int(rng.integers(4, 12))) for _ in range(N)])
     p0 = Fraction(int(rng.integers(0, 9)), 8)
     return start, p0, chains
@@ -593,3 +593,87 @@ def random_estimator_input(rng):
 
 def chains_tok(chains):
     return '+'.join(','.join(rs(q) for q in ch) if ch else '-' for ch in chains) if chains else '_'
+
+
+# ------------------------------------------------------------------ correspondence streams
+
+def step_tags(model_line):
+    """histogram of what the steps of one run exercised (read off the model's trace)"""
+    tags = {}
+    for seg in model_line.split(' '):
+        if seg.startswith('ERR:'):
+            tags[seg] = tags.get(seg, 0) + 1
+        if not seg.startswith('i='):
+            continue
+        for step in seg.split(';'):
+            f = parse_fields(step)
+            if f.get('b') == '0':
+                k = 'step:coin-0'
+            elif f.get('acc') == '1':
+                k = 'step:moved:not-in-codespace' if f.get('t', '').endswith('~0') else 'step:moved:logical'
+            else:
+                k = 'step:coin-1-but-decodes'
+            tags[k] = tags.get(k, 0) + 1
+            if f.get('pp') == '0/1':
+                tags['step:previous-probability-0'] = tags.get('step:previous-probability-0', 0) + 1
+    return tags
+
+
+def chain_stream(ctx, rng):
+    from harness import core
+    from harness.core import Stream
+    s = Stream('splitting-chain')
+    n_cases = 260 if ctx.thorough else 90
+    cases, impl, ops = [], [], []
+    for k in range(n_cases):
+        edge = [None, None, None, None, 'rate-out', None, None, 'n-init-0', None, 'few-decoders'][k % 10]
+        case = random_case(rng, ctx.thorough, edge=edge)
+        try:
+            segs, state, tables, code = run_impl(case)
+        except DecoderFailure:
+            continue
+        except StubMismatch as e:
+            # another sampling mechanism: the scripted draws say nothing -> correspondence is broken
+            cases.append(case)
+            impl.append(f'EXC:StubMismatch:{e}')
+            ops.append(op_line(case, make_code(case['code'], tuple(case['size'])), []))
+            continue
+        cases.append(case)
+        impl.append((segs, state))
+        ops.append(op_line(case, code, tables))
+    outs = core.driver(ops)
+    for case, im, op, m in zip(cases, impl, ops, outs):
+        if isinstance(im, str):
+            s.add(op, im, case, tag='stub-mismatch')
+            continue
+        if not boundary_free(m, case):
+            continue
+        ans = render(m, im[0], im[1])
+        s.add(op, ans, case, tag=f"decoder:{case['decoder']}")
+        for t, c in step_tags(m).items():
+            s.hist[t] = s.hist.get(t, 0) + c
+    return s.run()
+
+
+def estimator_stream(ctx, rng):
+    from harness import core
+    from harness.core import Stream
+    s = Stream('splitting-estimator')
+    inputs = [random_estimator_input(rng) for _ in range(400 if ctx.thorough else 120)]
+    ops = [f'sp.est {st} {rs(p0)} {chains_tok(ch)}' for st, p0, ch in inputs]
+    outs = core.driver(ops + [f'sp.margin {st} {chains_tok(ch)}' for st, p0, ch in inputs])
+    models, margins = outs[:len(ops)], outs[len(ops):]
+    for (st, p0, ch), op, m, mg in zip(inputs, ops, models, margins):
+        if mg not in ('none', 'bad-args') and parse_rat(mg) < Fraction(1, 10 ** 7):
+            continue        # the float sign of lhs - rhs is not reliable at some grid point
+        try:
+            ans = est_canon(m, impl_estimator(st, p0, ch))
+        except Exception as e:  # noqa
+            ans = exc_token(e)
+        if m.startswith('ERR'):
+            tag = m
+        else:
+            cs = m.split(' ')[0][2:].split(',')
+            tag = 'no-pair' if cs == ['-'] else ('some-sign-change' if any(c != '1/1' for c in cs) else 'fallback-c=1')
+        s.add(op, ans, {'start_run': st, 'p0': rs(p0), 'recorded': [[rs(q) for q in c] for c in ch]}, tag=tag)
+    return s.run()
